@@ -358,6 +358,10 @@ class Check:
     def describe_failure(self, failure):
         return failure["msg"]
 
+    def vacuous(self, results):
+        """Return a message if the batch did not actually exercise the property (=> exit 2, never exit 0)."""
+        return None
+
 
 def same_failure(res, oracle):
     return res is not None and "harness_error" not in res and any(f["oracle"] == oracle for f in res["failures"])
@@ -482,6 +486,10 @@ def _main(check, args):
             print(f"HARNESS-ERROR property={check.prop} {r['harness_error'][:1500]}")
         exit_code = max(exit_code, EXIT_HARNESS)
 
+    vac = check.vacuous(good) if good else "no run produced a result"
+    if vac:
+        print(f"HARNESS-ERROR property={check.prop} the check could not exercise the property: {vac}")
+        exit_code = max(exit_code, EXIT_HARNESS)
     wall = time.time() - t0
     cov = check.coverage(good, args.tier)
     cov.setdefault("runs_skipped_for_wall_budget", skipped)
